@@ -20,7 +20,7 @@ ID = 'C06'
 LEVEL = 'exploration'
 RULE = ('argument universe = all tree-shaped values of depth <= 1 (quick) / <= 2 over a reduced child set (thorough) built from 10 atoms '
         'and the constructors list / tuple / set / str-keyed dict / plain object with <= 2 children; every value is a call of one '
-        'operation with a unique result, for 10 call configurations (instance, static, keyword, two arguments, capture by position/name, '
+        'operation with a unique result, for 12 call configurations (instance, static, keyword, two arguments, capture by position/name, '
         'capture none, resolver alias, two aliases); replayed in-process in the original and the reversed insertion order, on another '
         'instance, with other excluded arguments, and in three child processes with PYTHONHASHSEED 1, 2, 3. Non-trivial = configuration '
         'with >= 2 calls whose arguments differ.')
@@ -29,6 +29,8 @@ ASSUMPTIONS = ['positional vs keyword passing of the same argument is not demand
                'child processes import the same /repo working tree']
 
 ATOMS = [0, 1, True, None, 1.0, 'a', '1', '', 8, 'b']
+# values whose encoding is long (> 1 KiB) and that differ only at the very end / in the middle
+LONG = [['long', 's', 1], ['long', 's', 2], ['long', 'l', 1], ['long', 'l', 2], ['long', 'm', 1], ['long', 'm', 2]]
 BYTES_ATOM = ['bytes', 'a']
 
 
@@ -38,6 +40,12 @@ def build(spec, rev=False):
         return ATOMS[spec[1]]
     if t == 'bytes':
         return spec[1].encode('latin1')
+    if t == 'long':
+        if spec[1] == 's':
+            return 'x' * 1500 + str(spec[2])
+        if spec[1] == 'l':
+            return list(range(400)) + [spec[2]]
+        return {'p': 'y' * 700 + str(spec[2]) + 'y' * 700}
     kids = spec[1]
     if rev:
         kids = list(reversed(kids))
@@ -72,6 +80,8 @@ class Obj2(object):
 
 
 def has_big_set(spec):
+    if spec[0] in ('long', 'atom', 'bytes'):
+        return False
     if spec[0] == 'set' and len(spec[1]) >= 2:
         return True
     if spec[0] in ('list', 'tuple', 'set'):
@@ -82,6 +92,8 @@ def has_big_set(spec):
 
 
 def order_sensitive(spec):
+    if spec[0] in ('long', 'atom', 'bytes'):
+        return False
     if spec[0] in ('set', 'dict', 'obj') and len(spec[1]) >= 2:
         return True
     if spec[0] in ('list', 'tuple', 'set'):
@@ -93,7 +105,7 @@ def order_sensitive(spec):
 
 def universe(tier):
     atoms = [['atom', i] for i in range(len(ATOMS))] + [BYTES_ATOM]
-    out = list(atoms)
+    out = list(atoms) + list(LONG)
 
     def cons(children_pool, maxn=2):
         res = []
@@ -139,7 +151,7 @@ def universe(tier):
     return out
 
 
-CONFIGS = ['inst', 'static', 'kw', 'two', 'cap-pos', 'cap-name', 'cap-none', 'cap-two', 'resolver', 'two-aliases']
+CONFIGS = ['inst', 'static', 'kw', 'two', 'cap-pos', 'cap-name', 'cap-none', 'cap-two', 'cap-static', 'resolver', 'two-aliases', 'fallback']
 
 
 def bounds(tier):
@@ -193,6 +205,19 @@ def make_ops(tr):
         def f_cap2(self, x=None, y=None, z=None, w=None, **k):
             return KeyOp.next()
 
+        @staticmethod
+        @tr.static_intercept_input('ksc', capture_args=[CapturedArg(0, 'x'), CapturedArg(2, 'z')])
+        def f_scap(x=None, y=None, z=None, **k):
+            return KeyOp.next()
+
+        @tr.intercept_input('kold')
+        def f_old(self, *a, **k):
+            return KeyOp.next()
+
+        @tr.intercept_input('knew', fallback_aliases=['kmissing', 'kold'])
+        def f_new(self, *a, **k):
+            return KeyOp.next()
+
         @tr.intercept_input('kn', capture_args=[CapturedArg(None, 'x')])
         def f_capname(self, y=None, x=None, **k):
             return KeyOp.next()
@@ -215,6 +240,9 @@ def make_ops(tr):
     KeyOp.__qualname__ = 'KeyOp'
     setattr(sys.modules[__name__], 'KeyOp', KeyOp)
     return KeyOp
+
+
+FALLBACK_PHASE = ['record']
 
 
 def plan_for(cfg, U, rev=False, variant=0):
@@ -257,6 +285,19 @@ def plan_for(cfg, U, rev=False, variant=0):
                 plan.append(('f_res', [build(u, rev)], {}, ident))
         for ident in ('A', 'C', 'B'):
             plan.append(('f_res', [], {}, ident))
+    if cfg == 'cap-static':
+        for a, b in itertools.product(small[:16], repeat=2):
+            plan.append(('f_scap', [build(a, rev), ['excluded', variant], build(b, rev)], {}, 'A'))
+        for a in small[:16]:
+            plan.append(('f_scap', [build(a, rev)], {'z': build(a, rev), 'y': variant}, 'A'))
+    if cfg == 'fallback':
+        # recorded under the old alias; replayed through the renamed function that lists the old alias as fallback.
+        # the argument texts contain the alias names themselves
+        texts = ['knew', 'kold', 'input: knew', 'x knew y kold', 'kmissing', 'a', '']
+        fn = 'f_old' if variant == 0 and not rev and FALLBACK_PHASE[0] == 'record' else 'f_new'
+        for t in texts:
+            plan.append((fn, [t], {}, 'A'))
+            plan.append((fn, [[t, 'knew']], {'x': t}, 'A'))
     if cfg == 'cap-two':
         for a, b in itertools.product(small[:16], repeat=2):
             plan.append(('f_cap2', [build(a, rev), build(b, rev), ['excluded', variant], build(a, rev)], {}, 'A'))
@@ -273,6 +314,10 @@ def identity(cfg, call):
         return (fn, cap)
     if fn == 'f_cap2':
         return (fn, tuple(('kw', n, canon(kw[n])) if n in kw else ('pos', n, canon(args[p])) for p, n in ((0, 'x'), (1, 'y'), (3, 'w'))))
+    if fn == 'f_scap':
+        return (fn, tuple(('kw', n, canon(kw[n])) if n in kw else ('pos', n, canon(args[p])) for p, n in ((0, 'x'), (2, 'z'))))
+    if fn in ('f_old', 'f_new'):
+        return ('f_old/f_new', canon(list(args)), canon(kw))   # the renamed function answers from what was recorded under the old alias
     if fn == 'f_capname':
         return (fn, canon(kw.get('x', 'ABSENT')) if 'x' in kw else 'ABSENT')
     if fn == 'f_cap0':
@@ -299,7 +344,10 @@ def record_into(directory, cfg, tier):
     K = make_ops(tr)
     U = universe(tier)
     plan = plan_for(cfg, U)
+    FALLBACK_PHASE[0] = 'record'
+    plan = plan_for(cfg, U)
     K('rec').execute(plan)
+    FALLBACK_PHASE[0] = 'replay'
     rid = [f for f in os.listdir(directory)][0].split('.')[0]
     return rid, K.results, plan
 
@@ -313,6 +361,7 @@ def replay_from(directory, rid, cfg, tier, rev, variant, tag):
     tr = TapeRecorder(cas)
     K = make_ops(tr)
     U = universe(tier)
+    FALLBACK_PHASE[0] = 'replay'
     plan = plan_for(cfg, U, rev=rev, variant=variant)
     rec = cas.get_recording(rid)
     tr.play(rec.id, lambda recording: K(tag).execute(plan))
@@ -363,7 +412,7 @@ def run_case(case):
         labels = []
         for rev, variant, tag, label in ((False, 0, 'same', 'same process, same order'), (True, 0, 'other', 'same process, reversed insertion order, other instance'),
                                          (False, 7, 'var', 'same process, other excluded arguments'), (True, 9, 'var2', 'reversed order + other excluded arguments')):
-            if variant and cfg not in ('cap-pos', 'cap-name', 'cap-none', 'cap-two'):
+            if variant and cfg not in ('cap-pos', 'cap-name', 'cap-none', 'cap-two', 'cap-static'):
                 continue
             replayed, plan_rep = replay_from(d, rid, cfg, tier, rev, variant, tag)
             v, b = judge(cfg, tier, recorded, replayed, label, plan_rec, plan_rep)
@@ -379,6 +428,7 @@ def run_case(case):
                 from mc.core import HarnessError
                 raise HarnessError('child replay failed: %s' % out.stderr[-800:])
             replayed = [tuple(x) if isinstance(x, list) and x[:1] == ['EXC'] else x for x in json.loads(out.stdout.strip().splitlines()[-1])]
+            FALLBACK_PHASE[0] = 'replay'
             v, b = judge(cfg, tier, recorded, replayed, 'child process PYTHONHASHSEED=%d' % hs, plan_rec, plan_for(cfg, universe(tier), rev=True))
             viols += v
             nbad += b
